@@ -7,7 +7,7 @@
 # outcome. The worktree and its build output are removed afterwards.
 set -u
 name=$1; prop=$2; tier=${3:-quick}
-src=/tmp/seed-$name/.seed
+src=${SEED_SRC:-/tmp/seed-$name/.seed}
 dst=/verif/seeded/$name
 mkdir -p "$dst"
 cp "$src"/patch.diff "$src"/notes.md "$dst"/ 2>/dev/null
